@@ -47,6 +47,7 @@ class C03(C20):
             c = U.C02.decode(U.PROP, src)
             c['kind'] = 'unify'
             c['ending'] = src.pick(['close', 'drop', 'throw', 'exhaust'])
+            c['deferred'] = src.n(3) == 2
             return c
         case = C20.decode(self, src)
         if src.n(2) == 0:
@@ -68,6 +69,9 @@ class C03(C20):
             r['raise_at'] = 0
         case['queries'] = case['queries'][:2]
         case['ending'] = {'kind': src.pick(ENDINGS), 'k': src.n(6), 'n': 1 + src.n(5)}
+        # sometimes a query variable is bound by an outer, still open unification while the query runs; it is released
+        # afterwards and the query re-run on the same argument list with the variable unbound
+        case['prebind'] = [src.n(3), gen.gen_term(src, [], self.cfg, 1)] if src.n(4) == 3 else None
         if case['ending']['kind'] == 'pyraise' and not case['replaced']:
             case['ending']['kind'] = 'close'
         case['kind'] = 'query'
@@ -126,14 +130,42 @@ class C03(C20):
         def ref_setup(it):
             for t in dyn:
                 it.assert_fact(t)
+        prebind = tt(case.get('prebind')) if case.get('prebind') else None
         for q in tt(case['queries']):
+            q_unbound = q
+            pre = None
+            if prebind is not None and q[0] == 'f':
+                qv = [v for v in term_vars(q, [])]
+                if qv:
+                    pv = qv[prebind[0] % len(qv)]
+                    pre = (pv, prebind[1])
+
+                    def subst(t):
+                        if t == pv:
+                            return prebind[1]
+                        if t[0] == 'f':
+                            return ('f', t[1], tuple(subst(a) for a in t[2]))
+                        return t
+                    q = subst(q)
             st, ref, it = C.run_ref(prog, q, variadic=variadic, setup=ref_setup)
             if 'findall-nonground-instance' in it.events or st == 'unspec':
                 continue
             if st == 'budget':
                 continue
             decided += 1
-            r = self.run_ending(case, comp[1], q, st, ref, it, ending)
+            ref_unbound = None
+            if pre is not None:
+                st_u, ref_u, it_u = C.run_ref(prog, q_unbound, variadic=variadic, setup=ref_setup)
+                if st_u == 'unspec' or 'findall-nonground-instance' in it_u.events or st_u == 'budget':
+                    pre = None
+                    q = q_unbound
+                    st, ref, it = st_u, ref_u, it_u
+                    if st in ('unspec', 'budget') or 'findall-nonground-instance' in it.events:
+                        decided -= 1
+                        continue
+                else:
+                    ref_unbound = (st_u, ref_u, it_u)
+            r = self.run_ending(case, comp[1], q_unbound if pre is not None else q, st, ref, it, ending, pre, ref_unbound)
             if isinstance(r, tuple):
                 return FAIL(r[0], dict(self.detail(case, q, ref, None, r[1]), ending=ending))
             classes |= r['classes']
@@ -142,7 +174,7 @@ class C03(C20):
             return DISCARD('all queries unspecified or unbounded')
         return OK(nontrivial, sorted(classes))
 
-    def run_ending(self, case, code, q, st, ref, it, ending):
+    def run_ending(self, case, code, q, st, ref, it, ending, pre=None, ref_unbound=None):
         kind = ending['kind']
         kk = ending['k']
         n_ref = len(ref)
@@ -169,6 +201,11 @@ class C03(C20):
             name, args = impl.goal_parts(q)
             vmap = {}
             eargs = [impl.to_engine(yp, a, vmap) for a in args]
+            outer = None
+            if pre is not None:
+                from yldprolog.engine import unify as _unify
+                outer = iter(_unify(vmap[pre[0]], impl.to_engine(yp, pre[1], {})))
+                next(outer)
 
             def answer():
                 seen = {}
@@ -241,11 +278,21 @@ class C03(C20):
             # (1) every variable unbound again
             gc.collect()
             left = impl.bound_variables()
+            if outer is not None:
+                left = [v for v in left if v is not vmap[pre[0]]]
             if left:
                 return ('variables-still-bound:' + kind.split('-')[0], '%d engine variables are still bound after the query ended by %s at k=%d' % (len(left), kind, k))
             internal = len(impl.REGISTRY) - nvars0 - len(vmap)
+            if outer is not None:
+                if [v for v in impl.bound_variables() if v is not vmap[pre[0]]]:
+                    return ('variables-still-bound:' + kind.split('-')[0], 'variables other than the outer binding are still bound')
+                outer.close()
+                st, ref, it = ref_unbound
+                yp._budget = 10 * it.steps + 500
             # (3) same query, same engine, same variable objects
             counter['n'] = -10 ** 9
+            yp._n = 0
+            impl.WORK['n'] = 0
             st2, out2 = 'done', []
             g2 = yp.query(name, eargs)
             try:
@@ -277,6 +324,8 @@ class C03(C20):
             classes.add('python-predicate-raised')
         if bound_at_end > 0:
             classes.add('bindings-active-at-abandonment')
+        if outer is not None:
+            classes.add('outer-binding-active-during-the-query')
         nt = kind != 'exhaust' and internal > 0 and (bound_at_end > 0 or raised is not None)
         return {'classes': classes, 'nontrivial': nt}
 
@@ -312,20 +361,24 @@ class C03(C20):
         gens = []
         detail = U.C02.sample_view(U.PROP, case)
         detail['ending'] = ending
+        deferred = bool(case.get('deferred'))
         try:
-            for (a, b), kp in zip(stack, kept):
-                g = iter(unify(U.E(yp, a, vmap), U.E(yp, b, vmap)))
+            created = [iter(unify(U.E(yp, a, vmap), U.E(yp, b, vmap))) for (a, b) in stack] if deferred else None
+            e1, e2 = U.E(yp, t1, vmap), U.E(yp, t2, vmap)
+            pre_final = iter(unify(e1, e2)) if deferred else None
+            for i, ((a, b), kp) in enumerate(zip(stack, kept)):
+                g = created[i] if deferred else iter(unify(U.E(yp, a, vmap), U.E(yp, b, vmap)))
                 try:
                     next(g)
                     gens.append(g)
                 except StopIteration:
                     pass
-            e1, e2 = U.E(yp, t1, vmap), U.E(yp, t2, vmap)
 
             def observe():
                 seen = {}
                 return ('f', 'obs', tuple(impl.reify(x, seen) for x in pool + [e1, e2]))
-            g = iter(unify(e1, e2))
+            g = pre_final if deferred else iter(unify(e1, e2))
+            pre_final = None          # keep exactly one reference, so that "drop" really drops the generator
             try:
                 next(g)
                 yielded = True
@@ -360,7 +413,7 @@ class C03(C20):
         gc.collect()
         if impl.bound_variables():
             return FAIL('variables-still-bound:unify', detail)
-        return OK(ending != 'exhaust' and s2 is not None and s2 != s, ['bare-unify', 'ending:' + ending])
+        return OK(ending != 'exhaust' and s2 is not None and s2 != s, ['bare-unify', 'ending:' + ending] + (['generators-created-before-started'] if deferred else []))
 
 
 PROP = C03()
